@@ -339,7 +339,7 @@ func runC03(c *Ctx) {
 		var nb *tickOffer
 		for oi := range a.Offers {
 			o := &a.Offers[oi]
-			if !o.Blocking && o.Helper == nil && instrDominates(o.At, g.at) {
+			if !o.Blocking && instrDominates(o.At, g.at) {
 				nb = o
 			}
 		}
@@ -630,25 +630,51 @@ func runC04(c *Ctx) {
 	header := loopHeaderOf(pace.Block())
 	var clock *ssa.Call // the clock read of this iteration
 	okElapsed, whyElapsed := false, "elapsed is not time.Since(atk.began) / time.Now().Sub(atk.began)"
-	if call, ok := elapsed.(*ssa.Call); ok {
+	clockOf := func(v ssa.Value) (*ssa.Call, bool) {
+		call, ok := v.(*ssa.Call)
+		if !ok {
+			return nil, false
+		}
 		switch callName(&call.Call) {
 		case "time.Since":
 			if beganValue(call.Call.Args[0], a) {
-				clock, okElapsed = call, true
-			} else {
-				whyElapsed = "time.Since is not applied to this attack's began (attack.began of the object created in Attack)"
+				return call, true
 			}
+			whyElapsed = "time.Since is not applied to this attack's began (attack.began of the object created in Attack)"
 		case "(time.Time).Sub":
 			if now, isNow := call.Call.Args[0].(*ssa.Call); isNow && callName(&now.Call) == "time.Now" && beganValue(call.Call.Args[1], a) {
-				clock, okElapsed = now, true
+				return now, true
 			}
 		}
+		return nil, false
 	}
-	if okElapsed {
+	if cl, ok := clockOf(elapsed); ok {
+		clock, okElapsed = cl, true
 		if header == nil || !header.Dominates(clock.Block()) {
 			okElapsed, whyElapsed = false, "elapsed is computed outside the loop (once, not per iteration)"
 		} else if !instrDominates(clock, pace) {
 			okElapsed, whyElapsed = false, "elapsed is not computed before Pace"
+		}
+	} else if phi, isPhi := elapsed.(*ssa.Phi); isPhi && header != nil && phi.Block() == header {
+		// three-clause for: `for elapsed := since(); cond; elapsed = since()`: a fresh clock read on
+		// the way in and one per trip round the loop
+		okElapsed = true
+		for k, e := range phi.Edges {
+			cl, ok := clockOf(e)
+			if !ok {
+				okElapsed = false
+				break
+			}
+			pred := header.Preds[k]
+			if header.Dominates(pred) {
+				// back edge: read inside the loop, after the iteration's work (in the post block)
+				if !header.Dominates(cl.Block()) || cl.Block() != pred {
+					okElapsed, whyElapsed = false, "the elapsed value carried round the loop is not re-read at the end of each iteration"
+				}
+			} else if cl.Block() != pred {
+				okElapsed, whyElapsed = false, "the first elapsed value is not read right before the loop"
+			}
+			clock = cl
 		}
 	}
 	c.Check(okElapsed, keyE, rElapsed, "elapsed since atk.began, read per iteration", whyElapsed, c.at(pace))
@@ -670,8 +696,29 @@ func runC04(c *Ctx) {
 			}
 		}
 		nInc := 0
-		for k, e := range phi.Edges {
-			pred := phi.Block().Preds[k]
+		// a three-clause `for` routes every `continue` through a post block (elapsed = time.Since(…))
+		// that merges the incremented counters in a φ of its own: look through it
+		type inEdge struct {
+			v    ssa.Value
+			pred *ssa.BasicBlock
+		}
+		var edges []inEdge
+		through := map[*ssa.BasicBlock]bool{phi.Block(): true}
+		var collect func(p *ssa.Phi, depth int)
+		collect = func(p *ssa.Phi, depth int) {
+			for k, e := range p.Edges {
+				pred := p.Block().Preds[k]
+				if inner, isPhi := e.(*ssa.Phi); isPhi && depth < 2 && inner.Block() == pred && len(pred.Succs) == 1 && pred.Succs[0] == p.Block() && p.Block().Dominates(pred) {
+					through[pred] = true
+					collect(inner, depth+1)
+					continue
+				}
+				edges = append(edges, inEdge{e, pred})
+			}
+		}
+		collect(phi, 0)
+		for _, ie := range edges {
+			e, pred := ie.v, ie.pred
 			if z, isC := constInt(e); isC {
 				if z != 0 || phi.Block().Dominates(pred) {
 					okC, why = false, "counter does not start at 0 / is reset inside the loop"
@@ -700,9 +747,9 @@ func runC04(c *Ctx) {
 		if nInc != len(sentBlocks) {
 			okC, why = false, fmt.Sprintf("%d 'tick sent' outcomes but %d counter increments (a sent tick is not counted)", len(sentBlocks), nInc)
 		}
-		// every sent block jumps straight to the header
+		// every sent block jumps straight to the header (or to the loop's post block)
 		for b := range sentBlocks {
-			if len(b.Succs) != 1 || b.Succs[0] != phi.Block() {
+			if len(b.Succs) != 1 || !through[b.Succs[0]] {
 				okC, why = false, "after a tick is sent control does not return directly to the loop head"
 			}
 		}
@@ -751,6 +798,7 @@ func runC04(c *Ctx) {
 	const rDur = "Pace is reachable only through the false edge of `du > 0 && elapsed > du` on the same elapsed value; the true edge returns"
 	keyD := "duration-check:" + shortFn(fn)
 	var cmpE, cmpD *ssa.BinOp
+	excOnTrue, posOnTrue := true, true
 	eachInstr(fn, func(i ssa.Instruction) {
 		bo, ok := i.(*ssa.BinOp)
 		if !ok {
@@ -771,32 +819,61 @@ func runC04(c *Ctx) {
 			}
 			return false
 		}
+		// either polarity: `du > 0 && elapsed > du → stop` or `du <= 0 || elapsed <= du → go on`
 		switch {
 		case bo.Op == token.GTR && bo.X == elapsed && isDu(bo.Y), bo.Op == token.LSS && bo.Y == elapsed && isDu(bo.X):
-			cmpE = bo
+			cmpE, excOnTrue = bo, true
+		case bo.Op == token.LEQ && bo.X == elapsed && isDu(bo.Y), bo.Op == token.GEQ && bo.Y == elapsed && isDu(bo.X):
+			cmpE, excOnTrue = bo, false
 		case bo.Op == token.GTR && isDu(bo.X):
 			if z, ok := constInt(bo.Y); ok && z == 0 {
-				cmpD = bo
+				cmpD, posOnTrue = bo, true
+			}
+		case bo.Op == token.LEQ && isDu(bo.X):
+			if z, ok := constInt(bo.Y); ok && z == 0 {
+				cmpD, posOnTrue = bo, false
 			}
 		}
 	})
+	directIf := func(v ssa.Value) *ssa.If {
+		for _, r := range refs(v) {
+			if ifi, ok := r.(*ssa.If); ok {
+				return ifi
+			}
+		}
+		return nil
+	}
+	succOf := func(ifi *ssa.If, onTrue bool) *ssa.BasicBlock {
+		if onTrue {
+			return ifi.Block().Succs[0]
+		}
+		return ifi.Block().Succs[1]
+	}
 	switch {
 	case cmpE == nil:
 		c.Fail(keyD, rDur, "no `elapsed > du` test on the elapsed value given to Pace", c.at(pace))
 	case cmpD == nil:
 		c.Fail(keyD, rDur, "no `du > 0` test", c.at(pace))
 	default:
-		ifD := trueImpliesIf(cmpD)
-		ifE := trueImpliesIf(cmpE)
+		ifD, ifE := directIf(cmpD), directIf(cmpE)
+		if ifD == nil {
+			ifD = implIf(cmpD, posOnTrue, 0)
+		}
+		if ifE == nil {
+			ifE = implIf(cmpE, excOnTrue, 0)
+		}
 		okD := ifD != nil && ifE != nil && instrDominates(ifD, pace)
 		why := "the duration test does not dominate the Pace call"
+		var exceeded *ssa.BasicBlock
 		if okD {
 			if ifD == ifE {
-				// `&&` lowered to a φ: the true edge must return
-				okD = ifD.Block().Succs[0] != pace.Block()
-			} else if ifD.Block().Succs[0] != cmpE.Block() {
+				// `&&` / `||` lowered to a φ: the edge meaning "limited and exceeded" must not be the one leading to Pace
+				exceeded = succOf(ifE, excOnTrue)
+				okD = exceeded != pace.Block()
+			} else if succOf(ifD, posOnTrue) != cmpE.Block() {
 				okD, why = false, "`elapsed > du` is not evaluated on the `du > 0` edge"
 			} else {
+				exceeded = succOf(ifE, excOnTrue)
 				for _, i := range cmpE.Block().Instrs {
 					switch i.(type) {
 					case *ssa.UnOp, *ssa.BinOp, *ssa.If, *ssa.FieldAddr:
@@ -807,7 +884,7 @@ func runC04(c *Ctx) {
 			}
 		}
 		if okD {
-			set := exploreBlock(ifE.Block().Succs[0], nil)
+			set := exploreBlock(exceeded, nil)
 			if set[ssa.Instruction(pace)] || len(returnsIn(set)) == 0 {
 				okD, why = false, "when the duration has elapsed the loop still reaches Pace"
 			}
